@@ -284,10 +284,6 @@ pub fn valloc_capacity_avail(c: usize, Ghost(avail): Ghost<nat>) -> (r: Vec<u8>)
 pub fn vmin_of_usize(a: usize, b: usize) -> (r: usize)
     ensures r == (if a <= b { a } else { b }),
 { core::cmp::min(a, b) }
-/// `std::io::ErrorKind::UnexpectedEof.into()`
-#[verifier::external_body]
-pub fn vio_unexpected_eof() -> (r: std::io::Error)
-{ std::io::ErrorKind::UnexpectedEof.into() }
 /// `String::from_utf8_unchecked(v)`: the bytes of the string are v (UTF-8 validity is the caller's
 /// obligation in the source and is not modelled)
 #[verifier::external_body]
